@@ -260,11 +260,12 @@ pub struct Sink {
     pub polls: u64,
     pub calm: bool,
     pub kind_salt: usize,
+    pub flushes: u64,
 }
 
 impl Sink {
     pub fn new(ch: Choices, b: Bounds) -> Self {
-        Sink { out: Vec::new(), ch, b, consecutive_pending: 0, errors_injected: 0, zeros_injected: 0, polls: 0, calm: false, kind_salt: (b.drops as usize + b.pendings as usize) }
+        Sink { out: Vec::new(), ch, b, consecutive_pending: 0, errors_injected: 0, zeros_injected: 0, polls: 0, calm: false, kind_salt: (b.drops as usize + b.pendings as usize), flushes: 0 }
     }
 }
 
@@ -341,8 +342,40 @@ impl AsyncWrite for Sink {
         self.poll_write(cx, &tmp)
     }
 
-    fn poll_flush(self: Pin<&mut Self>, _: &mut Context<'_>) -> Poll<io::Result<()>> {
-        Poll::Ready(Ok(()))
+    /// A flush is a scripted event like a write: it succeeds, is Pending or fails transiently
+    /// (within the same budgets).  `write` / `sync` of the library as it stands never flush, so
+    /// these outcomes only matter to code that starts doing so.
+    fn poll_flush(mut self: Pin<&mut Self>, _: &mut Context<'_>) -> Poll<io::Result<()>> {
+        self.flushes += 1;
+        let mut opts: Vec<u8> = vec![0];
+        if !self.calm {
+            if self.consecutive_pending < self.b.pendings {
+                opts.push(3)
+            }
+            if self.errors_injected < self.b.errors {
+                opts.push(4)
+            }
+        }
+        let pick = {
+            let n = opts.len() as u8;
+            let c = if n > 1 { self.ch.borrow_mut().choose(n) } else { 0 };
+            opts[c as usize]
+        };
+        match pick {
+            3 => {
+                self.consecutive_pending += 1;
+                Poll::Pending
+            }
+            4 => {
+                self.consecutive_pending = 0;
+                self.errors_injected += 1;
+                Poll::Ready(Err(io::Error::new(io::ErrorKind::Other, "transient")))
+            }
+            _ => {
+                self.consecutive_pending = 0;
+                Poll::Ready(Ok(()))
+            }
+        }
     }
     fn poll_close(self: Pin<&mut Self>, _: &mut Context<'_>) -> Poll<io::Result<()>> {
         Poll::Ready(Ok(()))
